@@ -7,6 +7,8 @@
   * `<op>_inverse_shape`: the registered inverse, called with the arguments `_reverse_<op>` computes, restores the
     original batch size, for every rank / size / (negative) dim;
   * frame theorems about the write-back; lock_/unlock_ revert;
+  * `writeBackB_*`, `flatten_keys_exit_rebinds`: the write-back on BINDINGS (which tensor every leaf path names): an unlocked original
+    is rebound to the entries of the inverse image (`update(inplace=False)`), a locked one keeps every binding (`update_`);
   * `<op>_block_never_raises` (7 shape ops) / `<keys op>_block_identity`: the WHOLE `with` block of the model — binder, forward call,
     edits, `_reverse_<op>`, binder again on the call it builds, inverse call, write-back — returns normally for every accepted
     spelling, and leaves the original's metadata as it was when the block adds no key.
@@ -954,6 +956,60 @@ theorem unflatten_keys_block_identity (c : Call) (ch : Char) (edits : List Edit)
     simp only [fwd, hto, applyFwd, hinv, bind, Except.bind]
     exact writeBack_same_keys s _ rfl rfl
 
+/-! ## bindings: an unlocked original is REBOUND to the entries of the inverse image, a locked one is written in place -/
+
+/-- a LOCKED original is written in place (`update_`): every path stays bound to the tensor it was bound to -/
+theorem writeBackB_locked_keeps_bindings (out inv : Binds) : writeBackB true out inv = out := rfl
+
+/-- an UNLOCKED original is written with `update(…, inplace=False)`: afterwards every path of the inverse image is bound to the
+tensor the inverse image holds there (not to the tensor the original held before, with the data copied into it) — in particular two
+entries exchanged inside the block are exchanged in the original, and an entry rebound to another dtype / shape arrives as it is -/
+theorem writeBackB_unlocked_rebinds : ∀ (inv out : Binds), inv.Pairwise (fun p q => Unrelated p.1 q.1) →
+    ∀ p ∈ inv, lookupB (writeBackB false out inv) p.1 = some p.2
+  | [], _, _, p, hp => by simp at hp
+  | q :: rest, out, hpw, p, hp => by
+    have hq := List.pairwise_cons.1 hpw
+    simp only [writeBackB, Bool.false_eq_true, if_false, List.foldl_cons]
+    rcases List.mem_cons.1 hp with rfl | hr
+    · rw [foldl_bindPath_other rest _ p.1 (fun r hr => hq.1 r hr)]
+      exact bindPath_lookup_self out p.1 p.2
+    · have := writeBackB_unlocked_rebinds rest (bindPath out q) hq.2 p hr
+      simpa [writeBackB] using this
+
+/-- … and every path of the original that is unrelated to the paths of the inverse image keeps its tensor -/
+theorem writeBackB_unlocked_frame (out inv : Binds) (k : Key) (h : ∀ p ∈ inv, Unrelated k p.1) :
+    lookupB (writeBackB false out inv) k = lookupB out k := by
+  simp only [writeBackB, Bool.false_eq_true, if_false]
+  exact foldl_bindPath_other inv out k h
+
+/-- forgetting the tensors, the write-back on bindings is the write-back on key sets (`writeBack`) -/
+theorem writeBackB_keys : ∀ (inv out : Binds),
+    (writeBackB false out inv).map (·.1) = (inv.map (·.1)).foldl insertPath (out.map (·.1))
+  | [], _ => rfl
+  | p :: rest, out => by
+    have := writeBackB_keys rest (bindPath out p)
+    simp only [writeBackB, Bool.false_eq_true, if_false, List.foldl_cons, List.map_cons] at this ⊢
+    rw [this, bindPath_keys]
+
+/-- the whole exit of `with td.flatten_keys(sep) as flat` on bindings, unlocked original: whatever tensor the (modified) flat object
+holds under `sep.join(path)` is what the original holds under `path` afterwards, for every spelling of the separator -/
+theorem flatten_keys_exit_rebinds (c : Call) (ch : Char) (out ys : Binds)
+    (hop : toOp "flatten_keys" c = .ok (.flattenKeys [ch]))
+    (hns : NoSepInKeys ch (ys.map (·.1)))
+    (hpw : ys.Pairwise (fun p q => Unrelated p.1 q.1)) :
+    ∃ r, exitBinds "flatten_keys" c false out (ys.map fun p => (flattenKey [ch] p.1, p.2)) = .ok r ∧
+      ∀ p ∈ ys, lookupB r p.1 = some p.2 := by
+  have hback : (ys.map fun p => (flattenKey [ch] p.1, p.2)).map (fun p => (unflattenKey [ch] p.1, p.2)) = ys := by
+    rw [List.map_map]
+    conv => rhs; rw [← List.map_id ys]
+    apply List.map_congr_left
+    intro p hp
+    have hk := hns p.1 (List.mem_map.2 ⟨p, hp, rfl⟩)
+    simp only [Function.comp, flattenKey, unflattenKey, splitSep, id]
+    rw [splitC_joinSep ch p.1 hk.1 hk.2]
+  refine ⟨writeBackB false out ys, ?_, writeBackB_unlocked_rebinds ys out hpw⟩
+  simp only [exitBinds, invBinds, hop, bind, Except.bind, pure, Except.pure, hback]
+
 example : (withBlock "transpose" ⟨[], [("dim0", .int 1), ("dim1", .int (-1))]⟩ [.addKey [['z']]]
       ⟨[1, 2, 3], none, [[['a']]], false⟩).toOption = some ⟨[1, 2, 3], none, [[['a']], [['z']]], false⟩ := by decide
 example : (fwd "flatten_keys" ⟨[], [("separator", .str ['_'])]⟩ ⟨[2], none, [[['n'], ['b']]], true⟩).toOption.map (·.st.keys)
@@ -969,4 +1025,7 @@ example : (withBlock "flatten" ⟨[], []⟩ [.value] ⟨[2, 3], none, [[['a']]],
 example : (withBlock "squeeze" ⟨[.int 0], []⟩ [.addKey [['z']]] ⟨[2, 3], none, [[['a']]], false⟩).toOption = some ⟨[2, 3], none, [[['a']], [['z']]], false⟩ := by decide
 example : (withBlock "unflatten" ⟨[.int (-1)], [("unflattened_size", .ints [3])]⟩ [.addKey [['z']]] ⟨[2, 3], none, [[['a']]], false⟩).toOption = some ⟨[2, 3], none, [[['a']], [['z']]], false⟩ := by decide
 
+-- two entries exchanged inside the block: exchanged in an unlocked original, bindings untouched in a locked one
+example : writeBackB false [([['a']], 1), ([['b']], 2)] [([['a']], 2), ([['b']], 1)] = [([['a']], 2), ([['b']], 1)] := by decide
+example : writeBackB true [([['a']], 1), ([['b']], 2)] [([['a']], 2), ([['b']], 1)] = [([['a']], 1), ([['b']], 2)] := by decide
 end TdVerif.Props.C17
